@@ -1071,6 +1071,182 @@ theorem entity_type_never_changes (c : Cfg) : ∀ (ops : List Op) (s : State), I
       have h := step_other c s (.reset m l now) (by intro a h; cases h)
       exact ih _ hi' n (by rw [h.1]; exact hn)
 
+/-! ### C15.5b  names are unique per type, whatever the namespace_id
+
+  What the code guarantees and why. SQLite only enforces UNIQUE(namespace_id, type, name). The full name of a metric or group embeds
+  its namespace ("ns:name"), and resolveEntity recomputes namespace_id from the name on EVERY create and edit: it is the id of the
+  namespace row named by the prefix, or 0 (no prefix, or an entity of another type). Because (a) the edit path only touches a row
+  of the request's own type (fb668983), (b) namespace rows never change their name, and (c) namespace rows have namespace_id 0 so
+  their names are unique among themselves, the stored namespace_id stays a FUNCTION of (type, name) in every reachable state. Hence
+  two rows of one type with the same full name have the same namespace_id and the SQL constraint makes them the same row — also
+  after renames across namespaces. (On the replay side this needs the replayed UPDATE to write namespace_id too: C16.) -/
+
+/-- the row's type/name call for a namespace lookup -/
+def needsNsRow (e : Entity) : Bool := (e.typ == tMetric || e.typ == tGroup) && e.name.ns != 0
+
+/-- the stored namespace_id is what resolveNamespace would compute from the row's own type and name -/
+structure NsInv (s : State) : Prop where
+  resolved : ∀ e ∈ s.ents, needsNsRow e = true →
+    ∃ n ∈ s.ents, n.typ = tNamespace ∧ n.name = ⟨0, e.name.ns⟩ ∧ e.nsId = n.id
+  zero : ∀ e ∈ s.ents, needsNsRow e = false → e.nsId = 0
+
+theorem nsinv_empty : NsInv State.empty := by constructor <;> simp [State.empty]
+
+theorem resolveNs_spec {s : State} {a : SaveReq} {nsId : Int} (h : resolveNs s a = .ok nsId) :
+    (needsNs a = true → ∃ n ∈ s.ents, n.typ = tNamespace ∧ n.name = ⟨0, a.name.ns⟩ ∧ nsId = n.id) ∧
+    (needsNs a = false → nsId = 0) := by
+  rcases resolveNs_ref h with h0 | ⟨n, hn, hid, ht, hname, hneeds⟩
+  · constructor
+    · intro hn
+      unfold resolveNs at h
+      simp only [hn, if_true] at h
+      cases hl : nsLookup s.ents a.name.ns with
+      | none => simp [hl] at h
+      | some n =>
+        simp only [hl] at h
+        injection h with h
+        unfold nsLookup at hl
+        have h1 := List.mem_of_find?_eq_some hl
+        have h2 := List.find?_some hl
+        simp only [Bool.and_eq_true, beq_iff_eq] at h2
+        exact ⟨n, h1, h2.1, h2.2, h.symm⟩
+    · intro _; exact h0
+  · constructor
+    · intro _; exact ⟨n, hn, ht, hname, hid.symm⟩
+    · intro hf; rw [hf] at hneeds; cases hneeds
+
+theorem nsinv_shape {s : State} {a : SaveReq} {p : State × SaveOut} (hi : Inv s) (hn : NsInv s)
+    (hs : Shape .fixed s a p) : NsInv p.1 := by
+  cases hs with
+  | err e => exact hn
+  | created nsId hns hc hb he =>
+    obtain ⟨hres, hzero⟩ := resolveNs_spec hns
+    have hmem : ∀ x, x ∈ (createdState s a nsId).ents ↔
+        x = createdRow a (newId s a) (maxVer s.ents + 1) nsId ∨ x ∈ s.ents := fun x => mem_insertById _ _ _
+    constructor
+    · intro e he hneed
+      rcases (hmem e).mp he with h | h
+      · subst h
+        obtain ⟨n, hnm, ht, hname, hid⟩ := hres (by simpa [needsNsRow, needsNs, createdRow] using hneed)
+        exact ⟨n, (hmem n).mpr (Or.inr hnm), ht, by simpa [createdRow] using hname, by simpa [createdRow] using hid⟩
+      · obtain ⟨n, hnm, ht, hname, hid⟩ := hn.resolved e h hneed
+        exact ⟨n, (hmem n).mpr (Or.inr hnm), ht, hname, hid⟩
+    · intro e he hneed
+      rcases (hmem e).mp he with h | h
+      · subst h
+        simpa [createdRow] using hzero (by simpa [needsNsRow, needsNs, createdRow] using hneed)
+      · exact hn.zero e h hneed
+  | edited nsId r hns hr hv hc hck hlate hb he htyp =>
+    obtain ⟨hres, hzero⟩ := resolveNs_spec hns
+    obtain ⟨hrm, hrid⟩ := rowOf_some hr
+    have hrt : r.typ = a.typ := by simpa [typeMatches] using htyp
+    let r' := editedRow r a (maxVer s.ents + 1) nsId
+    have hr'mem : r' ∈ (editedState s a r nsId).ents := (mem_replaceRow _ _ _).mpr (Or.inl ⟨rfl, r, hrm, rfl⟩)
+    -- a namespace row that is edited keeps its name (checkNamespace / the late check), so witnesses survive
+    have hkeep : ∀ n ∈ s.ents, n.typ = tNamespace →
+        ∃ n' ∈ (editedState s a r nsId).ents, n'.typ = tNamespace ∧ n'.name = n.name ∧ n'.id = n.id := by
+      intro n hnm hnt
+      by_cases hid : n.id = r.id
+      · have hnr : n = r := hi.idUniq n hnm r hrm hid
+        subst hnr
+        have hat : a.typ = tNamespace := by rw [← hrt]; exact hnt
+        have hname : n.name = a.name := by
+          have hsave : saveV .fixed s a = (editedState s a n nsId, .ok (mkEvent a n.id (maxVer s.ents + 1) nsId) false) := by
+            have := save_shape .fixed s a
+            -- re-derive through the partial theorem on the shape we already hold
+            unfold saveV
+            simp only [hck, hns, saveResolved, hb, Bool.false_eq_true, if_false, he, hlate, saveEdit, hr, rowMatches, versionMatches, hv,
+              beq_self_eq_true, htyp, Bool.and_self, if_true, hc, editedState]
+          exact (namespace_not_renamable_partial s hi a _ _ (by unfold save; exact hsave) hat n hrm hrid).1
+        exact ⟨r', hr'mem, hnt, by simp [r', editedRow, hname], rfl⟩
+      · exact ⟨n, (mem_replaceRow _ _ _).mpr (Or.inr ⟨hnm, hid⟩), hnt, rfl, rfl⟩
+    constructor
+    · intro e he' hneed
+      rcases (mem_replaceRow _ _ _).mp he' with ⟨h, _⟩ | ⟨h, _⟩
+      · subst h
+        obtain ⟨n, hnm, ht, hname, hid⟩ := hres (by simpa [needsNsRow, needsNs, editedRow, hrt] using hneed)
+        obtain ⟨n', hn', ht', hname', hid'⟩ := hkeep n hnm ht
+        exact ⟨n', hn', ht', by rw [hname']; simpa [editedRow] using hname, by rw [hid']; simpa [editedRow] using hid⟩
+      · obtain ⟨n, hnm, ht, hname, hid⟩ := hn.resolved e h hneed
+        obtain ⟨n', hn', ht', hname', hid'⟩ := hkeep n hnm ht
+        exact ⟨n', hn', ht', by rw [hname', hname], by rw [hid', hid]⟩
+    · intro e he' hneed
+      rcases (mem_replaceRow _ _ _).mp he' with ⟨h, _⟩ | ⟨h, _⟩
+      · subst h
+        simpa [editedRow] using hzero (by simpa [needsNsRow, needsNs, editedRow, hrt] using hneed)
+      · exact hn.zero e h hneed
+
+theorem nsinv_step (c : Cfg) (s : State) (op : Op) (hi : Inv s) (hn : NsInv s) : NsInv (step c s op) := by
+  cases op with
+  | save a => exact nsinv_shape hi hn (save_shape .fixed s a)
+  | getOrCreate m k now =>
+    have h := step_other c s (.getOrCreate m k now) (by intro a h; cases h)
+    exact ⟨by rw [h.1]; exact hn.resolved, by rw [h.1]; exact hn.zero⟩
+  | put kvs =>
+    have h := step_other c s (.put kvs) (by intro a h; cases h)
+    exact ⟨by rw [h.1]; exact hn.resolved, by rw [h.1]; exact hn.zero⟩
+  | delete ids =>
+    have h := step_other c s (.delete ids) (by intro a h; cases h)
+    exact ⟨by rw [h.1]; exact hn.resolved, by rw [h.1]; exact hn.zero⟩
+  | reset m l now =>
+    have h := step_other c s (.reset m l now) (by intro a h; cases h)
+    exact ⟨by rw [h.1]; exact hn.resolved, by rw [h.1]; exact hn.zero⟩
+
+theorem nsinv_run (c : Cfg) : ∀ (ops : List Op) (s : State), Inv s → NsInv s → NsInv (run c s ops) := by
+  intro ops
+  induction ops with
+  | nil => intro s _ hn; exact hn
+  | cons op ops ih => intro s hi hn; exact ih _ (step_inv c s op hi) (nsinv_step c s op hi hn)
+
+/-- the stored namespace_id is a function of (type, name) -/
+theorem nsId_determined (s : State) (hi : Inv s) (hn : NsInv s) (e1 e2 : Entity) (h1 : e1 ∈ s.ents) (h2 : e2 ∈ s.ents)
+    (ht : e1.typ = e2.typ) (hname : e1.name = e2.name) : e1.nsId = e2.nsId := by
+  have hneed : needsNsRow e1 = needsNsRow e2 := by simp [needsNsRow, ht, hname]
+  cases hb : needsNsRow e1 with
+  | false => rw [hn.zero e1 h1 hb, hn.zero e2 h2 (by rw [← hneed]; exact hb)]
+  | true =>
+    obtain ⟨n1, hn1, ht1, hname1, hid1⟩ := hn.resolved e1 h1 hb
+    obtain ⟨n2, hn2, ht2, hname2, hid2⟩ := hn.resolved e2 h2 (by rw [← hneed]; exact hb)
+    have hz1 : n1.nsId = 0 := hn.zero n1 hn1 (by simp [needsNsRow, ht1, tNamespace, tMetric, tGroup])
+    have hz2 : n2.nsId = 0 := hn.zero n2 hn2 (by simp [needsNsRow, ht2, tNamespace, tMetric, tGroup])
+    have : n1 = n2 := hi.nameUniq n1 hn1 n2 hn2 (by rw [hz1, hz2]) (by rw [ht1, ht2]) (by rw [hname1, hname2, hname])
+    rw [hid1, hid2, this]
+
+/-- "Entity names are unique per type" — irrespective of namespace_id, in every state reachable by any history: no two rows of one
+    type ever carry the same full name, renames across namespaces included. -/
+theorem name_unique_per_type (c : Cfg) (ops : List Op) :
+    ∀ e1 ∈ (run c State.empty ops).ents, ∀ e2 ∈ (run c State.empty ops).ents,
+      e1.typ = e2.typ → e1.name = e2.name → e1 = e2 := by
+  intro e1 h1 e2 h2 ht hname
+  have hi := reachable_inv c ops
+  have hn := nsinv_run c ops _ inv_empty nsinv_empty
+  exact hi.nameUniq e1 h1 e2 h2 (nsId_determined _ hi hn e1 e2 h1 h2 ht hname) ht hname
+
+/-- consequently a rename onto a full name that another entity of the type carries is refused, even when that entity was stored
+    under a different namespace at some earlier time: the request either fails or leaves the names unique -/
+theorem rename_onto_used_name_refused (s : State) (hi : Inv s) (hn : NsInv s) (a : SaveReq) (s' : State) (ev : Event)
+    (h : save s a = (s', .ok ev false)) : ∀ e ∈ s.ents, e.typ = a.typ → e.name = a.name → e.id = a.id := by
+  intro e he ht hname
+  have hs := save_shape .fixed s a
+  have hi' : Inv (save s a).1 := save_inv s a hi
+  have hn' : NsInv (save s a).1 := nsinv_shape hi hn hs
+  unfold save at h hi' hn'
+  rw [h] at hs hi' hn'
+  cases hs with
+  | edited nsId r hns hr hv hc hck hlate hb he' htyp =>
+    obtain ⟨hrm, hrid⟩ := rowOf_some hr
+    by_cases hid : e.id = r.id
+    · rw [hid, hrid]
+    · exfalso
+      have hrt : r.typ = a.typ := by simpa [typeMatches] using htyp
+      have he1 : e ∈ (editedState s a r nsId).ents := (mem_replaceRow _ _ _).mpr (Or.inr ⟨he, hid⟩)
+      have he2 : editedRow r a (maxVer s.ents + 1) nsId ∈ (editedState s a r nsId).ents :=
+        (mem_replaceRow _ _ _).mpr (Or.inl ⟨rfl, r, hrm, rfl⟩)
+      have hsame := hi'.nameUniq e he1 _ he2
+        (nsId_determined _ hi' hn' e _ he1 he2 (by simp [editedRow, ht, hrt]) (by simp [editedRow, hname]))
+        (by simp [editedRow, ht, hrt]) (by simp [editedRow, hname])
+      exact hid (by rw [hsame]; rfl)
+
 /-- the pinned tree: a namespace "create" for an existing builtin id renames the row (replayed on the real code by the
     harness: oracle signature `namespace-renamed`) -/
 def nsReq (loc : Nat) (oldVersion : Nat) (create : Bool) : SaveReq :=
@@ -1325,6 +1501,191 @@ theorem journal_paging_complete (s : State) (hd : Distinct s) (since : Nat) (P R
     exact ⟨hm.1, hPR last hlm e hr⟩
 
 
+/-! ### C15.6b  paging the journal while edits keep happening
+
+  A client pages with `sinceVersion`: request, take the version of the last event as the next `since`, repeat; between its requests
+  ANY operations run (creates, edits, renames, deletes by other clients). Claim: everything at or below the client's `since` that is
+  current has been delivered to it — so whenever it catches up (`since` = newest version, or an empty reply) it holds the latest
+  version of every entity. -/
+
+/-- rows that are not newer than the newest version of `s` are untouched by one operation -/
+theorem old_rows_step (c : Cfg) (s : State) (op : Op) (e : Entity) (he : e ∈ (step c s op).ents)
+    (hv : e.version ≤ maxVer s.ents) : e ∈ s.ents := by
+  cases op with
+  | save a =>
+    have hs := save_shape .fixed s a
+    simp only [step, save] at he
+    generalize saveV .fixed s a = p at hs he
+    cases hs with
+    | err e' => exact he
+    | created nsId hns hc hb hec =>
+      rcases (mem_insertById _ _ _).mp he with h | h
+      · subst h; simp only [createdRow] at hv; omega
+      · exact h
+    | edited nsId r hns hr hv' hc hck hlate hb hec htyp =>
+      rcases (mem_replaceRow _ _ _).mp he with ⟨h, _⟩ | ⟨h, _⟩
+      · subst h; simp only [editedRow] at hv; omega
+      · exact h
+  | getOrCreate m k now => rw [(step_other c s (.getOrCreate m k now) (by intro a h; cases h)).1] at he; exact he
+  | put kvs => rw [(step_other c s (.put kvs) (by intro a h; cases h)).1] at he; exact he
+  | delete ids => rw [(step_other c s (.delete ids) (by intro a h; cases h)).1] at he; exact he
+  | reset m l now => rw [(step_other c s (.reset m l now) (by intro a h; cases h)).1] at he; exact he
+
+theorem maxVer_mono_step (c : Cfg) (s : State) (op : Op) (hi : Inv s) : maxVer s.ents ≤ maxVer (step c s op).ents := by
+  cases op with
+  | save a => exact maxVer_mono_save s a hi
+  | getOrCreate m k now => rw [(step_other c s (.getOrCreate m k now) (by intro a h; cases h)).1]; exact Nat.le_refl _
+  | put kvs => rw [(step_other c s (.put kvs) (by intro a h; cases h)).1]; exact Nat.le_refl _
+  | delete ids => rw [(step_other c s (.delete ids) (by intro a h; cases h)).1]; exact Nat.le_refl _
+  | reset m l now => rw [(step_other c s (.reset m l now) (by intro a h; cases h)).1]; exact Nat.le_refl _
+
+/-- … and by any history: a row of the later state whose version is not above the earlier maximum is a row of the earlier state -/
+theorem old_rows_run (c : Cfg) : ∀ (ops : List Op) (s : State), Inv s → ∀ e ∈ (run c s ops).ents, e.version ≤ maxVer s.ents →
+    e ∈ s.ents ∧ maxVer s.ents ≤ maxVer (run c s ops).ents := by
+  intro ops
+  induction ops with
+  | nil => intro s _ e he _; exact ⟨he, Nat.le_refl _⟩
+  | cons op ops ih =>
+    intro s hi e he hv
+    have hm := maxVer_mono_step c s op hi
+    obtain ⟨h1, h2⟩ := ih (step c s op) (step_inv c s op hi) e he (Nat.le_trans hv hm)
+    exact ⟨old_rows_step c s op e h1 hv, Nat.le_trans hm h2⟩
+
+theorem maxVer_mono_run (c : Cfg) : ∀ (ops : List Op) (s : State), Inv s → maxVer s.ents ≤ maxVer (run c s ops).ents := by
+  intro ops
+  induction ops with
+  | nil => intro s _; exact Nat.le_refl _
+  | cons op ops ih => intro s hi; exact Nat.le_trans (maxVer_mono_step c s op hi) (ih _ (step_inv c s op hi))
+
+/-- one round of the client: other people's operations `ops`, then a journal request with page size `page` -/
+structure Round where
+  ops : List Op
+  page : Int
+
+/-- the paging client: (database state, its `since`, everything it has received so far) -/
+def pagingSession (c : Cfg) : State → Nat → List Entity → List Round → State × Nat × List Entity
+  | s, since, recv, [] => (s, since, recv)
+  | s, since, recv, r :: rs =>
+    let s' := run c s r.ops
+    let reply := journal s' since r.page
+    let since' := match reply.getLast? with
+      | some last => last.version
+      | none => since
+    pagingSession c s' since' (recv ++ reply) rs
+
+/-- what the client is entitled to: it holds every current row whose version is at or below its `since` -/
+def CaughtUpTo (s : State) (since : Nat) (recv : List Entity) : Prop :=
+  since ≤ maxVer s.ents ∧ ∀ e ∈ s.ents, e.version ≤ since → e ∈ recv
+
+theorem paging_round (c : Cfg) (s : State) (since : Nat) (recv : List Entity) (r : Round)
+    (hi : Inv s) (hd : Distinct s) (h : CaughtUpTo s since recv) :
+    let s' := run c s r.ops
+    let reply := journal s' since r.page
+    CaughtUpTo s' (match reply.getLast? with | some last => last.version | none => since) (recv ++ reply) := by
+  intro s' reply
+  have hi' : Inv s' := run_inv c r.ops s hi
+  have hd' : Distinct s' := reachable_distinct c r.ops s hi hd
+  have hmono := maxVer_mono_run c r.ops s hi
+  have hpre : reply <+: journalRows s'.ents since := takeJournal_prefix _ _ _ _
+  -- rows of the new state at or below the old `since` are old rows, hence already received
+  have hold : ∀ e ∈ s'.ents, e.version ≤ since → e ∈ recv := by
+    intro e he hv
+    exact h.2 e (old_rows_run c r.ops s hi e he (Nat.le_trans hv h.1)).1 hv
+  cases hl : reply.getLast? with
+  | none =>
+    simp only
+    refine ⟨Nat.le_trans h.1 hmono, ?_⟩
+    intro e he hv
+    exact List.mem_append_left _ (hold e he hv)
+  | some last =>
+    simp only
+    have hlm : last ∈ reply := List.mem_of_getLast? hl
+    have hlast := (mem_journalRows s'.ents since last).mp (hpre.subset hlm)
+    refine ⟨le_maxVer _ _ hlast.1, ?_⟩
+    intro e he hv
+    by_cases hle : e.version ≤ since
+    · exact List.mem_append_left _ (hold e he hle)
+    · apply List.mem_append_right
+      obtain ⟨R, hsplit⟩ := hpre
+      have hej : e ∈ journalRows s'.ents since := (mem_journalRows _ _ _).mpr ⟨he, by omega⟩
+      rw [← hsplit] at hej
+      rcases List.mem_append.mp hej with hp | hr
+      · exact hp
+      · have := (journal_paging_complete s' hd' since reply R last hsplit.symm hl e).mpr hr
+        have := ((mem_journalRows _ _ _).mp this).2
+        omega
+
+/-- "a client paging by sinceVersion with edits happening between its requests never misses the latest version of any entity":
+    for every number of rounds, every page size and ANY operations between the requests, the client holds every current row at or
+    below its `since` … -/
+theorem paging_never_misses (c : Cfg) : ∀ (rounds : List Round) (s : State) (since : Nat) (recv : List Entity),
+    Inv s → Distinct s → CaughtUpTo s since recv →
+    CaughtUpTo (pagingSession c s since recv rounds).1 (pagingSession c s since recv rounds).2.1
+      (pagingSession c s since recv rounds).2.2 := by
+  intro rounds
+  induction rounds with
+  | nil => intro s since recv _ _ h; exact h
+  | cons r rs ih =>
+    intro s since recv hi hd h
+    simp only [pagingSession]
+    exact ih _ _ _ (run_inv c r.ops s hi) (reachable_distinct c r.ops s hi hd) (paging_round c s since recv r hi hd h)
+
+/-- versions start at 1 -/
+def VerPos (s : State) : Prop := ∀ e ∈ s.ents, 1 ≤ e.version
+
+theorem verpos_step (c : Cfg) (s : State) (op : Op) (h : VerPos s) : VerPos (step c s op) := by
+  cases op with
+  | save a =>
+    have hs := save_shape .fixed s a
+    simp only [step, save]
+    generalize saveV .fixed s a = p at hs
+    cases hs with
+    | err e' => exact h
+    | created nsId hns hc hb hec =>
+      intro e he
+      rcases (mem_insertById _ _ _).mp he with h1 | h1
+      · subst h1; simp [createdRow]
+      · exact h e h1
+    | edited nsId r hns hr hv' hc hck hlate hb hec htyp =>
+      intro e he
+      rcases (mem_replaceRow _ _ _).mp he with ⟨h1, _⟩ | ⟨h1, _⟩
+      · subst h1; simp [editedRow]
+      · exact h e h1
+  | getOrCreate m k now => unfold VerPos; rw [(step_other c s (.getOrCreate m k now) (by intro a h; cases h)).1]; exact h
+  | put kvs => unfold VerPos; rw [(step_other c s (.put kvs) (by intro a h; cases h)).1]; exact h
+  | delete ids => unfold VerPos; rw [(step_other c s (.delete ids) (by intro a h; cases h)).1]; exact h
+  | reset m l now => unfold VerPos; rw [(step_other c s (.reset m l now) (by intro a h; cases h)).1]; exact h
+
+theorem verpos_run (c : Cfg) : ∀ (ops : List Op) (s : State), VerPos s → VerPos (run c s ops) := by
+  intro ops
+  induction ops with
+  | nil => intro s h; exact h
+  | cons op ops ih => intro s h; exact ih _ (verpos_step c s op h)
+
+/-- … so once it catches up — its `since` is the newest version, or a request comes back empty — it holds the latest version of
+    EVERY entity. Stated for a client that starts from scratch (since = 0, nothing received) against ANY reachable database
+    `run c State.empty pre`, with any operations between its requests. -/
+theorem paging_complete_when_caught_up (c : Cfg) (pre : List Op) (rounds : List Round) :
+    let fin := pagingSession c (run c State.empty pre) 0 [] rounds
+    (fin.2.1 = maxVer fin.1.ents ∨ journalRows fin.1.ents fin.2.1 = []) → ∀ e ∈ fin.1.ents, e ∈ fin.2.2 := by
+  intro fin hcu e he
+  have hi := reachable_inv c pre
+  have hd : Distinct (run c State.empty pre) := reachable_distinct c pre _ inv_empty (by simp [Distinct, State.empty])
+  have hp : VerPos (run c State.empty pre) := verpos_run c pre _ (by intro e he; simp [State.empty] at he)
+  have h0 : CaughtUpTo (run c State.empty pre) 0 [] := by
+    refine ⟨Nat.zero_le _, ?_⟩
+    intro e he hv
+    have := hp e he
+    omega
+  have h := paging_never_misses c rounds _ 0 [] hi hd h0
+  apply h.2 e he
+  rcases hcu with hcu | hcu
+  · rw [hcu]; exact le_maxVer _ _ he
+  · apply Nat.le_of_not_lt
+    intro hlt
+    have := (mem_journalRows fin.1.ents fin.2.1 e).mpr ⟨he, hlt⟩
+    rw [hcu] at this; cases this
+
 /-! ### C15.7  the journal long-poll of the rpc handler (RawGetJournal / broadcastJournal)
 
   A schedule is any sequence of subscribe / save / broadcast steps; `broadcast s ws` is a function of the database state `s`
@@ -1523,6 +1884,21 @@ example : save s3 (mk 6 3 3 false tDashboard) = (s3, .err .invalidVersion) := by
 example : effCreate s3 (mk 6 3 3 false tDashboard) = false ∧ (∀ r ∈ s3.ents, r.id = 3 → r.typ ≠ tDashboard) := by decide
 -- before fb668983 the same request overwrote the metric and the returned event claimed it was a dashboard
 example : (saveV .untyped s3 (mk 6 3 3 false tDashboard)).2 = .ok (mkEvent (mk 6 3 3 false tDashboard) 3 4 0) false := by decide
+
+-- `name_unique_per_type`: moving metric 3 (w6) into namespace w1 under the name w1:w5, which metric 2 carries, is refused …
+example : (save s3 (mk 5 3 3 false tMetric 1)).2 = .err .constraint := by decide
+-- … while before fb668983 a dashboard-typed request first stripped metric 2 of its namespace_id (type and name untouched) and the
+-- same rename then went through: two metrics with the full name w1:w5
+example : ((saveV .untyped (saveV .untyped s3 (mk 5 2 2 false tDashboard 1)).1 (mk 5 3 3 false tMetric 1)).1.ents.map
+    (fun e => (e.id, e.typ, e.name, e.nsId))) = [(1, 4, ⟨0, 1⟩, 0), (2, 0, ⟨1, 5⟩, 0), (3, 0, ⟨1, 5⟩, 1)] := by decide
+example : NsInv s3 := nsinv_run cfg0 _ _ inv_empty nsinv_empty
+
+-- non-vacuity: the client pages with page size 1 while entity 3 is renamed and entity 2 edited between its requests; after five
+-- rounds its `since` is the newest version (5) and it holds the latest version of all three entities
+def rounds5 : List Round :=
+  [⟨[], 1⟩, ⟨[.save (mk 9 3 3 false tMetric)], 1⟩, ⟨[.save (mk 5 2 2 false tMetric 1)], 1⟩, ⟨[], 1⟩, ⟨[], 1000⟩]
+example : (pagingSession cfg0 s3 0 [] rounds5).2.1 = 5 ∧ maxVer (pagingSession cfg0 s3 0 [] rounds5).1.ents = 5 ∧
+    ((pagingSession cfg0 s3 0 [] rounds5).2.2.map (fun e => (e.id, e.version))) = [(1, 1), (2, 2), (3, 4), (2, 5)] := by decide
 
 -- long-poll: client 1 parked at From 2 (it holds everything up to 2), client 2 parked at From 3 = the version of the pending event
 -- of entity 3; the broadcast reads from the smaller From: client 1 gets version 3, client 2 gets nothing and stays parked
